@@ -153,7 +153,10 @@ def one_case(col: Collector, rng, index: int):
             else:
                 ax = rng.randrange(len(shape))
                 ax_arg = ax - len(shape) if (bk == "arrayapi" and rng.random() < 0.3) else ax    # NumPy's negative axes are axes too
-                if ax_arg < 0:
+                if bk == "arrayapi" and rng.random() < 0.1:
+                    ax_arg = None        # reduce over everything
+                    col.count("axis_none_cases")
+                if ax_arg is not None and ax_arg < 0:
                     col.count("negative_axis_cases")
                 got = f(args[0], axis=ax_arg) if bk == "arrayapi" else f(args[0], dim=DIMS[ax])
                 exp = [npop(v[0], axis=ax_arg) for v in variables(raws)]
@@ -245,7 +248,10 @@ def one_case(col: Collector, rng, index: int):
                 s[ax] = rng.randint(1, 3)
             raws.append(gen_array(rng, np, tuple(s), dtype))
         ax_arg = ax - len(shape) if (bk == "arrayapi" and rng.random() < 0.3) else ax
-        if ax_arg < 0:
+        if bk == "arrayapi" and rng.random() < 0.12:
+            ax_arg = None            # NumPy and the array-API standard: flatten every input, then join
+            col.count("axis_none_cases")
+        if ax_arg is not None and ax_arg < 0:
             col.count("negative_axis_cases")
         extra = {"k": k, "axis": ax_arg}
         try:
@@ -253,7 +259,7 @@ def one_case(col: Collector, rng, index: int):
                 got = backends.concat(*raws, axis=ax_arg)
             else:
                 got = backends.concat(*[Wds(r) for r in raws], dim=DIMS[ax])
-            exp = [np.concatenate(v, axis=ax) for v in variables(raws)]
+            exp = [np.concatenate(v, axis=ax_arg if bk == "arrayapi" else ax) for v in variables(raws)]
         except Exception as e:  # noqa: BLE001
             report("concat", f"raises-{type(e).__name__}", f"{e!r:.200}", extra)
         else:
